@@ -128,7 +128,7 @@ def _call(U, op, names, kill=None):
             if op.get('budget'):
                 kw['max_ops_evaluated'] = op['budget']
             else:
-                kw['max_ops_evaluated'] = 20000
+                kw['max_ops_evaluated'] = 2000
             if op.get('reenter') is not None:
                 inner = op['reenter']
 
@@ -218,6 +218,9 @@ def execute(case, ctx):
         ctx.event(step, op['op'], canon.digest(a))
         if a[0] == 'base':
             ctx.report('non_exception_escaped', 'step %d %s %r: %s' % (step, op['op'], op['src'][:160], a), {'kind': 'non_exception_escaped'})
+        if (a[0] == 'exc' and 'RecursionError' in a[1]) or (b[0] == 'exc' and 'RecursionError' in b[1]):
+            ctx.stats['skipped_recursion_depth'] += 1     # interpreter stack depth is not a property of the library
+            continue
         if a != b:
             ctx.report('history_dependent_result',
                        'step %d %s(%r%s): on the long-lived parser -> %s ; on a pristine parser -> %s' % (
